@@ -27,7 +27,7 @@ ASSUMPTIONS = [
     "champion fitness is compared per island along the evolution axis (non-increasing)",
 ]
 COMPONENTS = c10.COMPONENTS | {"real_extra": ["filesystem (scratch dir) for targets and weights", "numba-compiled fitness functions"]}
-BUDGET = {"quick": {"n": 80, "wall": 115, "determinism": 2}, "thorough": {"n": 5000, "wall": 1700, "determinism": 6}}
+BUDGET = {"quick": {"n": 80, "wall": 115, "determinism": 2}, "thorough": {"n": 7000, "wall": 1700, "determinism": 6}}
 REQUIRED_REACH = ["algo:nlopt", "algo:sade", "algo:sga", "range:equal", "range:shifted", "range:unequal", "range:oob", "range:none", "weights:list", "weights:file", "pairs>1", "multi_readout", "fitness:sum_of_abs_residuals", "fitness:sum_of_squared_residuals", "fitness:reduced_chi_squared", "simulated_checked", "simulated_computed_under_scheduler", "evolutions>1"]
 
 
